@@ -23,13 +23,25 @@ theorem view_cancelCommand (s : State) (c : Req) : view (cancelCommand s c) = vi
       · simp
     | none =>
       simp only
-      split
-      · cases hmk : markReqCancelled (markDone s c) c.id with
-        | none => simp
+      cases staleOwner s.stale k with
+      | some ow =>
+        simp only
+        cases hmk : markReqCancelled s c.id with
+        | none => rfl
         | some s2 =>
           have := (markReqCancelled_frame _ s2 c.id hmk).1
-          simp [this]
-      · rfl
+          simp only [view_markDone]
+          show view (tomb s2 k ow) = view s
+          rw [← this]; rfl
+      | none =>
+        simp only
+        split
+        · cases hmk : markReqCancelled (markDone s c) c.id with
+          | none => simp
+          | some s2 =>
+            have := (markReqCancelled_frame _ s2 c.id hmk).1
+            simp [this]
+        · rfl
   | start => rfl
   | stop => rfl
   | restart => rfl
@@ -109,12 +121,12 @@ theorem modObj_append_new (objs : List Cmd) (c : Cmd) (f : Cmd → Cmd)
   simp [modObj] at this ⊢
   exact this
 
-/-- A new instance that has been created, initialized and executed once. -/
+/-- A new instance that has just been initialised (its first callback). -/
 theorem Core.spawn {s s' : State} (h : Core s) {c : Cmd} {r : Req}
     (hobjs : s'.objs = s.objs ++ [c]) (hser : c.serial = s.objs.length) (hm : c.inMap = true)
-    (hfin : c.finalized = false) (hini : c.initialized = true) (hit : c.iters = 1)
-    (hown : c.owner = r.id) (hr : r ∈ s.executing) (hrn : r.name = .uod c.name) (hrd : r.id ∉ s.done)
-    (hev : s'.events = s.events ++ [.init c.serial, .exec c.serial c.name 0])
+    (hfin : c.finalized = false) (hini : c.initialized = true) (hit : c.iters = 0)
+    (hr : r ∈ s.executing) (hrn : r.name = .uod c.name) (hrb : r.bad = false) (hrd : r.id ∉ s.done)
+    (hev : s'.events = s.events ++ [.init c.serial])
     (hex : s'.executing = s.executing) (hcfg : s'.cfg = s.cfg) (hdone : s'.done = s.done)
     (hnc : ∀ o ∈ s.objs, o.inMap = true → conflict s.cfg o.name c.name = false) : Core s' := by
   have hlt : ∀ o ∈ s.objs, o.serial < s.objs.length := fun o ho => serial_lt h.serials ho
@@ -124,10 +136,10 @@ theorem Core.spawn {s s' : State} (h : Core s) {c : Cmd} {r : Req}
   · intro o ho hmo
     rw [hobjs] at ho
     rcases List.mem_append.mp ho with ho | ho
-    · obtain ⟨a, d, e, q, hq, h1, h2, h3⟩ := h.live o ho hmo
-      exact ⟨a, d, e, q, by rw [hex]; exact hq, h1, h2, by rw [hdone]; exact h3⟩
+    · obtain ⟨a, d, q, hq, h1, h2, h3⟩ := h.live o ho hmo
+      exact ⟨a, d, q, by rw [hex]; exact hq, h1, h2, by rw [hdone]; exact h3⟩
     · simp at ho; subst ho
-      exact ⟨hfin, hini, by rw [hit]; decide, r, by rw [hex]; exact hr, hown.symm, hrn, by rw [hdone]; exact hrd⟩
+      exact ⟨hfin, hini, r, by rw [hex]; exact hr, hrn, hrb, by rw [hdone]; exact hrd⟩
   · intro o ho hmo
     rw [hobjs] at ho
     rcases List.mem_append.mp ho with ho | ho
@@ -157,20 +169,19 @@ theorem Core.spawn {s s' : State} (h : Core s) {c : Cmd} {r : Req}
         have := h.evBound e he
         simp; omega
       rw [this]
-      simp [traceOf, Ev.serial, expected, hini, hit, hfin, List.range_succ]
+      simp [traceOf, Ev.serial, expected, hini, hit, hfin]
   · intro e he
     rw [hev] at he
     rw [hobjs]
     simp only [List.length_append, List.length_cons, List.length_nil]
     rcases List.mem_append.mp he with he | he
     · have := h.evBound e he; omega
-    · simp at he
-      rcases he with rfl | rfl <;> simp [Ev.serial, hser]
+    · simp at he; subst he; simp [Ev.serial, hser]
 
 /-- One more iteration of a live instance. -/
 theorem Core.exec {s : State} (h : Core s) {c : Cmd} (hc : c ∈ s.objs) (hm : c.inMap = true) :
     Core (execObj s c).1 := by
-  obtain ⟨hfin, hini, hit, q, hq, h1, h2, h3⟩ := h.live c hc hm
+  obtain ⟨hfin, hini, q, hq, h1, h2, h3⟩ := h.live c hc hm
   have hinj := @serial_inj _ h.serials
   apply h.update (fun o => if o.serial == c.serial then
       { o with iters := c.iters + 1, complete := o.complete ||
@@ -187,10 +198,10 @@ theorem Core.exec {s : State} (h : Core s) {c : Cmd} (hc : c ∈ s.objs) (hm : c
     · have : o = c := hinj ho hc hs
       subst this
       simp only [beq_self_eq_true, if_true]
-      exact ⟨hfin, hini, by simp, q, hq, h1, h2, by simpa [execObj] using h3⟩
+      exact ⟨hfin, hini, q, hq, h1, h2, by simpa [execObj] using h3⟩
     · simp only [beq_iff_eq, hs, if_false] at hmo ⊢
-      obtain ⟨a, d, e, q', hq', g1, g2, g3⟩ := h.live o ho hmo
-      exact ⟨a, d, e, q', hq', g1, g2, by simpa [execObj] using g3⟩
+      obtain ⟨a, d, q', hq', g1, g2, g3⟩ := h.live o ho hmo
+      exact ⟨a, d, q', hq', g1, g2, by simpa [execObj] using g3⟩
   · intro o ho hmo
     by_cases hs : o.serial = c.serial
     · have : o = c := hinj ho hc hs
